@@ -28,7 +28,7 @@ RULE = ('one run = one seeded case (server configuration, handler registry, '
 REAL = REAL_SERVER
 ASSUMPTIONS = ['E1 per-connection FIFO delivery', 'E2 pipe never corrupts',
                'engine.io, asyncio, threading trusted (run for real)']
-SHRINK_LISTS = ['ops']
+SHRINK_LISTS = ['ops']   # (a burst op shrinks as a whole)
 
 NSS = ['/', '/a', '/b']
 EVENTS = ['e1', 'e2', 'msg', 'x y']
@@ -86,6 +86,24 @@ def gen(rng, tier):
                 ops.append(['ev', p, ns, ev, extra, id, 'T%d' % tok])
             elif k < 0.90:
                 ops.append(['disc', p, ns])
+            elif k < 0.915:
+                # several packets of one client in ONE polling payload: the
+                # server handles them back to back (events, then possibly
+                # the client's own DISCONNECT of that namespace)
+                sub = []
+                for _ in range(rng.randrange(2, 5)):
+                    tok += 1
+                    ev = rng.choice(EVENTS + ['other'])
+                    sub.append(['ev', p, ns if rng.random() < 0.8
+                                else rng.choice(NSS), ev,
+                                [gen_value(rng, 1, allow_bytes=True)
+                                 for _ in range(rng.randrange(0, 2))],
+                                rng.choice([None, 0, 1, 3, 99,
+                                            rng.randrange(1000)]),
+                                'T%d' % tok])
+                if rng.random() < 0.6:
+                    sub.append(['disc', p, ns])
+                ops.append(['burst', p, sub])
             elif k < 0.94:
                 # the server ends the namespace; its (slow) disconnect
                 # handler is still running when further events arrive
@@ -209,8 +227,40 @@ def _run(case, cfg, v, reg, shapes, msgpack, w):
                 if pk.nsp in lst:
                     lst.remove(pk.nsp)
 
+    collector = [None]
+
+    def tx(p, type, ns, id, data):
+        if collector[0] is not None:
+            collector[0].append((type, ns, id, data))
+        else:
+            peers[p].send_pkt(type, ns, id, data)
+
+    todo = []
     for op in case['ops']:
+        if op[0] == 'burst':
+            todo.append(['burst_begin', op[1]])
+            todo.extend(op[2])
+            todo.append(['burst_end', op[1]])
+        else:
+            todo.append(op)
+    for op in todo:
         k = op[0]
+        if k == 'burst_begin':
+            # the payload is the only thing of this client in flight (one
+            # channel at a time, as a polling client does it)
+            w.settle()
+            for q in peers:
+                absorb_connect_answers(q)
+            collector[0] = []
+            continue
+        if k == 'burst_end':
+            pk, collector[0] = collector[0], None
+            p = op[1]
+            if pk and p in peers and not peers[p].conn.severed:
+                peers[p].post_pkts(pk)
+                w.rec.count('fault.polling_payload_burst')
+            w.settle()
+            continue
         if k == 'open':
             p = op[1]
             if p in peers:
@@ -251,7 +301,7 @@ def _run(case, cfg, v, reg, shapes, msgpack, w):
             if msgpack and id is not None and id >= 2**64:
                 id = id % (2**63)
             args = [tok] + list(extra)
-            peers[p].send_pkt(sio.EVENT, ns, id, [event] + args)
+            tx(p, sio.EVENT, ns, id, [event] + args)
             burst_peers.add(p)
             inflight_burst.setdefault(p, []).append(tok)
             sid = cur_sid(p, ns)
@@ -288,7 +338,7 @@ def _run(case, cfg, v, reg, shapes, msgpack, w):
             p, ns = op[1], op[2]
             if p not in peers or peers[p].conn.severed:
                 continue
-            peers[p].send_pkt(sio.DISCONNECT, ns, None, None)
+            tx(p, sio.DISCONNECT, ns, None, None)
             conn[p].pop(ns, None)
             if any(x[0] == p and x[1] == ns for x in racing_ns):
                 # free thread schedule: the client's own DISCONNECT may be
